@@ -311,3 +311,28 @@ void h_notify_fd_sync_refused(void)
 	__CPROVER_assert(k_ctl_calls == verif_in.eintr + 1, "[C07] the roll-back issues no further kernel call");
 	CANARY();
 }
+
+/* ---- synchronous probe on a descriptor number that ANOTHER registered iv_fd owns --------- */
+void h_notify_fd_sync_owned(void)
+{
+	int r;
+	struct k_entry before;
+
+	v_build();
+	__CPROVER_assume(verif_in.rb == 0 && verif_in.wb != 0 && verif_in.notify_shape == 0 && verif_in.rb2 != 0);
+	/* v_fd2 is registered on the same descriptor number and the kernel knows it */
+	v_fd2.fd = verif_in.fdnum;
+	k_ep[0].present = 1;
+	k_ep[0].events = EMASK(verif_in.rb2);
+	k_ep[0].ptr = &v_fd2;
+	k_ep[1].present = 0;
+	before = k_ep[0];
+	r = iv_fd_epoll_notify_fd_sync(&v_state, &v_fd);
+	__CPROVER_assert(r < 0, "[C02,C07] a second registration of a descriptor number that a registered iv_fd owns is refused (the kernel says EEXIST)");
+	__CPROVER_assert(k_ep[0].present && k_ep[0].events == before.events && k_ep[0].ptr == (void *)&v_fd2,
+			 "[C02,C03] the kernel interest of the iv_fd that owns the descriptor is left exactly as it was: its readiness is neither lost nor redirected to another object");
+	__CPROVER_assert(v_fd.registered_bands == 0 && UNLINKED(&v_fd), "[C07,C01] nothing is recorded as registered for the refused iv_fd");
+	__CPROVER_assert(v_fd2.registered_bands == verif_in.rb2 && v_fd2.wanted_bands == verif_in.wb2, "[C02] the owner's bookkeeping is untouched");
+	CANARY();
+}
+
